@@ -152,12 +152,12 @@ Fixpoint search_iter (l : list str) (st : sstate) (icp : bool) (k : nat) (w : Z)
   end.
 
 Inductive sres :=
-| SAssert                 (* assert count > 0 *)
 | SNone
 | SFound (w c : Z).
 
+(* `if count < 1: return None` (a zero or negative repeat count: no search) *)
 Definition search (b : sbuf) (st : sstate) (icp : bool) (count : Z) : sres :=
-  if count <=? 0 then SAssert
+  if count <? 1 then SNone
   else match search_iter (wl b) st icp (Z.to_nat count) (wi b) (bdoc b) with
        | None => SNone
        | Some (w, d) => SFound w (dcur d)
@@ -172,19 +172,16 @@ Definition set_cursor_position (b : sbuf) (v : Z) : sbuf :=
   let v2 := if v1 <? 0 then 0 else v1 in
   mksbuf (wl b) (wi b) (Z.max 0 v2).
 
-(* None = AssertionError *)
-Definition apply_search (b : sbuf) (st : sstate) (icp : bool) (count : Z) : option sbuf :=
+Definition apply_search (b : sbuf) (st : sstate) (icp : bool) (count : Z) : sbuf :=
   match search b st icp count with
-  | SAssert => None
-  | SNone => Some b
-  | SFound w c => Some (set_cursor_position (set_working_index b w) c)
+  | SNone => b
+  | SFound w c => set_cursor_position (set_working_index b w) c
   end.
 
-Definition get_search_position (b : sbuf) (st : sstate) (icp : bool) (count : Z) : option Z :=
+Definition get_search_position (b : sbuf) (st : sstate) (icp : bool) (count : Z) : Z :=
   match search b st icp count with
-  | SAssert => None
-  | SNone => Some (cur b)
-  | SFound _ c => Some c
+  | SNone => cur b
+  | SFound _ c => c
   end.
 
 (* the (text, cursor) of the Document returned (the selection is outside) *)
@@ -221,23 +218,17 @@ Definition stop_search (s : sess) : sess :=
   mksess (main s) [] (ss_text s) (ss_dir s) (ign s) false (vi s).
 
 (* search.do_incremental_search(direction, count) *)
-Definition do_incremental_search (s : sess) (dir count : Z) : option sess :=
+Definition do_incremental_search (s : sess) (dir count : Z) : sess :=
   let changed := negb (ss_dir s =? dir) in
   let s1 := mksess (main s) (field s) (field s) dir (ign s) (searching s) (vi s) in
-  if changed then Some s1
-  else match apply_search (main s1) (the_state s1) false count with
-       | Some b => Some (with_main s1 b)
-       | None => None
-       end.
+  if changed then s1
+  else with_main s1 (apply_search (main s1) (the_state s1) false count).
 
 (* search.accept_search() *)
 Definition accept_search (s : sess) : sess :=
   let s1 := if len (field s) =? 0 then s
             else mksess (main s) (field s) (field s) (ss_dir s) (ign s) (searching s) (vi s) in
-  match apply_search (main s1) (the_state s1) true 1 with
-  | Some b => stop_search (with_main s1 b)
-  | None => s1   (* count = 1: unreachable *)
-  end.
+  stop_search (with_main s1 (apply_search (main s1) (the_state s1) true 1)).
 
 (* What BufferControl.create_content displays for the main buffer. *)
 Definition preview (s : sess) : doc :=
@@ -283,15 +274,15 @@ Inductive key :=
 | KSlash | KQuestion.
 
 (* None: the key is not one of the modelled search keys in this state (it
-   would reach bindings outside this model), or the handler raised. *)
+   would reach bindings outside this model). *)
 Definition key_step (s : sess) (k : key) : option sess :=
   let r :=
     if searching s then
       match k with
-      | KCr => do_incremental_search s 1 1
-      | KCs => do_incremental_search s 0 1
-      | KUp => if vi s then None else do_incremental_search s 1 1
-      | KDown => if vi s then None else do_incremental_search s 0 1
+      | KCr => Some (do_incremental_search s 1 1)
+      | KCs => Some (do_incremental_search s 0 1)
+      | KUp => if vi s then None else Some (do_incremental_search s 1 1)
+      | KDown => if vi s then None else Some (do_incremental_search s 0 1)
       | KChar c => Some (mksess (main s) (field s ++ [c]) (ss_text s) (ss_dir s) (ign s) true (vi s))
       | KSlash => Some (mksess (main s) (field s ++ [47]) (ss_text s) (ss_dir s) (ign s) true (vi s))
       | KQuestion => Some (mksess (main s) (field s ++ [63]) (ss_text s) (ss_dir s) (ign s) true (vi s))
@@ -309,10 +300,8 @@ Definition key_step (s : sess) (k : key) : option sess :=
          '/' starts a BACKWARD search (towards older history), '?' a FORWARD one *)
       | KSlash => Some (start_search s 1)
       | KQuestion => Some (start_search s 0)
-      | Kn c => match apply_search (main s) (the_state s) false c with
-                | Some b => Some (with_main s b) | None => None end
-      | KN c => match apply_search (main s) (invert (the_state s)) false c with
-                | Some b => Some (with_main s b) | None => None end
+      | Kn c => Some (with_main s (apply_search (main s) (the_state s) false c))
+      | KN c => Some (with_main s (apply_search (main s) (invert (the_state s)) false c))
       | _ => None
       end
     else
@@ -347,18 +336,15 @@ Definition buf_ok (b : sbuf) : bool :=
 
 Definition enc_sres (r : sres) : sx :=
   match r with
-  | SAssert => A (-1)
   | SNone => L []
   | SFound w c => L [A w; A c]
   end.
-Definition enc_obuf (o : option sbuf) : sx :=
-  match o with None => A (-1) | Some b => L [A (wi b); A (cur b)] end.
-Definition enc_oz (o : option Z) : sx :=
-  match o with None => A (-1) | Some c => L [A c] end.
+Definition enc_obuf (b : sbuf) : sx := L [A (wi b); A (cur b)].
+Definition enc_oz (c : Z) : sx := L [A c].
 Definition enc_doc (d : doc) : sx := L [sx_str (dtext d); A (dcur d)].
 
 Definition queries : list (Z * bool * Z) :=
-  flat_map (fun dir => flat_map (fun icp => map (fun c => (dir, icp, c)) [0; 1; 2; 3])
+  flat_map (fun dir => flat_map (fun icp => map (fun c => (dir, icp, c)) [-1; 0; 1; 2; 3])
                                 [false; true]) [0; 1].
 
 Definition run_buffer (b : sbuf) (needle : str) (ic : bool) : sx :=
